@@ -451,6 +451,37 @@ def closure_param_item(ctx, cb):
     return None, None
 
 
+def rooted(ctx, body, e, depth=0):
+    """expression with every captured variable replaced by what the creating body captured (recursively); parameters of
+    an outer body appear as ('parg', body id, k) so that they cannot be confused with the closure's own parameters"""
+    from . import sym as S_
+    if depth > 4 or not isinstance(e, tuple) or not e:
+        return e
+
+    def f(x):
+        if x[0] == "upvar":
+            pb, pe = ctx.model.upvar_expr(body, x[1])
+            if pb is None:
+                return None
+            pe = rooted(ctx, pb, S_.strip_sites(S_.strip_refs(pe)), depth + 1)
+            return subst(pe, lambda y, pb=pb: ("parg", pb.id, y[1]) if y[0] == "arg" else None)
+        return None
+    if body.kind != "closure":
+        return e
+    return subst(e, f)
+
+
+def param_sources(ctx, body, k):
+    """what the callers pass for parameter k (1-based) of a fn/method: [(caller body, expr)] over all direct call sites"""
+    out = []
+    for (src, bi) in ctx.cg.sites_of.get(body.id, []):
+        sb = ctx.facts.bodies[src]
+        t = sb.blocks[bi]["term"]
+        if k - 1 < len(t["args"]):
+            out.append((sb, ctx.sym(sb).operand(t["args"][k - 1])))
+    return out
+
+
 def nested_closures(ctx, body, depth=3):
     out = []
     for c in ctx.facts.closures_of(body):
@@ -495,11 +526,23 @@ def arm_ret_expr(ctx, body, block, limit=12):
     """expression assigned to _0 in the straight-line region starting at `block` (follows gotos and calls)"""
     sy = ctx.sym(body)
     seen = set()
+    last = {}       # locals assigned inside the region (an inlined helper returns through a temporary)
     while block is not None and block not in seen and len(seen) < limit:
         seen.add(block)
         bl = body.blocks[block]
         for st in bl["stmts"]:
+            if st["k"] == "assign" and not st["place"]["p"] and st["place"]["l"] != 0:
+                rv = st["rv"]
+                src = (rv["op"].get("copy") or rv["op"].get("move")) if rv["k"] == "use" else None
+                if src is not None and not src["p"] and src["l"] in last:
+                    last[st["place"]["l"]] = last[src["l"]]
+                else:
+                    last[st["place"]["l"]] = sy.rvalue(rv)
             if st["k"] == "assign" and st["place"]["l"] == 0 and not st["place"]["p"]:
+                rv = st["rv"]
+                src = (rv["op"].get("copy") or rv["op"].get("move")) if rv["k"] == "use" else None
+                if src is not None and not src["p"] and src["l"] in last:
+                    return last[src["l"]]
                 return sy.rvalue(st["rv"])
         t = bl["term"]
         if t["k"] == "goto":
